@@ -1,4 +1,4 @@
-import TR.FS
+import TR.Daemon
 import Driver.E2EStream
 /-! daemon stream: the real `runMain` (argument parsing, ParseConfig, D-Bus service, start-up clean-up, the
 listen / accept / handleConn loop on a unix socket).  Model: `runMain = refuse an invalid configuration;
@@ -21,10 +21,13 @@ def init (f : List String) : St := { e := E2EStream.monInit f }
 def hexToStr (h : String) : String :=
   String.ofList ((WriterStream.parseHexBytes h).toList.map Char.ofNat)
 
-/-- start-up clean-up removes exactly the names the pattern `"*." + cptvTempExt + "*"` matches (`FS.globMatch`; this is
-`TR.C10Glob.removed`, characterised for arbitrary names by `Props.C10Glob.removed_iff`: the name contains `.cptv.temp`) -/
-def survives (hexName : String) : Bool :=
-  !(FS.globMatch ("*." ++ Facts.cptvTempExt ++ "*").toList (hexToStr hexName).toList)
+/-- the pattern built from the regenerated constant; what survives a start is `TR.Daemon.startUp` (theorems in
+`Props.Daemon`: no survivor contains `.cptv.temp`, every other name survives, in order; `Props.C10Glob`) -/
+def pattern : String := "*." ++ Facts.cptvTempExt ++ "*"
+
+/-- the hex-encoded names of the listing after start-up -/
+def afterStart (valid : Bool) (preHex : List String) : Option (List String) :=
+  (Daemon.startUp pattern valid (preHex.map hexToStr)).map fun names => names.map E2EStream.hexStr
 
 def invalid (f : List String) : Bool := E2EStream.kvN f "max" < E2EStream.kvN f "min"
 
@@ -44,7 +47,7 @@ def step (st : St) (bl : Block) : St × List String :=
     if envFailed bl then ({ st with dead := true }, (bl.outs.map joinSp)) else
     if invalid st.e.st.f then (withCfg st "error", ["start error"])
     else
-      let keep := st.pre.filter survives
+      let keep := (afterStart true st.pre).getD []
       (withCfg { st with started := true, removed := st.pre.length - keep.length } "ok", ["started", lsLine keep])
   | ["second"] =>
     if st.started then ({ st with seconds := st.seconds + 1 }, ["second refused"]) else (st, [])
@@ -56,7 +59,7 @@ def step (st : St) (bl : Block) : St × List String :=
        (st, [s!"info resx={h.resx} resy={h.resy} fps={h.fps} framesize={h.fsize} brand={E2EStream.hexStr h.brand} " ++
              s!"model={E2EStream.hexStr h.model} serial={h.serial} firmware={E2EStream.hexStr h.firmware}"])
      | none => (st, ["info none"]))
-  | ["ls"] => (st, [lsLine (if st.started then st.pre.filter survives else st.pre)])
+  | ["ls"] => (st, [lsLine ((afterStart st.started st.pre).getD st.pre)])
   | _ =>
     if !st.started then (st, []) else      -- nothing is served before `start`
     let (s', outs) := E2EStream.step st.e.st bl
